@@ -71,7 +71,7 @@ struct Spec {
     ctxt: usize,
     erased: bool,
     /// other ways to reach the same context (synchronous uses only): 0 none, 2 `&dyn ErasedCtxt` (no Send + Sync),
-    /// 3 `&ThreadLocalCtxt`, 4 `Option<ThreadLocalCtxt>`, 5 `Arc<ThreadLocalCtxt>`, 6 `Box<dyn ErasedCtxt + Send + Sync>`
+    /// 3 `&ThreadLocalCtxt`, 4 `Option<ThreadLocalCtxt>`, 5 `Arc<ThreadLocalCtxt>`, 6 `Box<dyn ErasedCtxt + Send + Sync>`, 7 `AssertInternal<ThreadLocalCtxt>`, 8 `AssertInternal<Option<..>>`, 9 `Box<ThreadLocalCtxt>`
     via: u8,
     kind: FKind,
     props: Vec<(String, V)>,
@@ -463,6 +463,19 @@ fn run_sync(w: &Arc<World>, s: &mut Strand, nodes: &Arc<Vec<N>>, slots: &mut Slo
                             let b: Box<dyn ErasedCtxt + Send + Sync> = Box::new(c);
                             use_frame_sync(w, s, make_frame(b, spec), spec.ctxt, value, *how, body, slots);
                         }
+                        7 => {
+                            // the wrapper that admits a context into the internal runtime
+                            w.probe("via_assert_internal");
+                            use_frame_sync(w, s, make_frame(emit::runtime::AssertInternal(c), spec), spec.ctxt, value, *how, body, slots);
+                        }
+                        8 => {
+                            w.probe("via_assert_internal_option");
+                            use_frame_sync(w, s, make_frame(emit::runtime::AssertInternal(Some(c)), spec), spec.ctxt, value, *how, body, slots);
+                        }
+                        9 => {
+                            w.probe("via_box");
+                            use_frame_sync(w, s, make_frame(Box::new(c), spec), spec.ctxt, value, *how, body, slots);
+                        }
                         _ => {
                             let frame = make_frame(c, spec);
                             use_frame_sync(w, s, frame, spec.ctxt, value, *how, body, slots);
@@ -697,7 +710,7 @@ fn gen_spec(ch: &mut Choices, fresh: &mut u32) -> Spec {
     Spec {
         ctxt: ch.weighted(&[5, 2, 2]),
         erased,
-        via: if !erased && ch.chance(1, 4) { 2 + ch.choose(5) as u8 } else { 0 },
+        via: if !erased && ch.chance(1, 3) { 2 + ch.choose(8) as u8 } else { 0 },
         kind,
         props: gen_props(ch, fresh),
     }
